@@ -316,10 +316,39 @@ def parseSetOp? (args : List String) : Option (SetOp DKey DKey) :=
   | ["forget"] => some .forget
   | _ => none
 
+/-- the same operation text read as an operation on a `Map<Key, (), N>`: values are `()`, writes
+    through `&mut ()` are no-ops (glue, not part of the model). -/
+def endToUnit : EntryEnd DVal → EntryEnd Unit
+  | .or_insert _ => .or_insert () | .or_insert_with _ => .or_insert_with ()
+  | .or_insert_with_key _ => .or_insert_with_key () | .or_default _ => .or_default ()
+  | .key => .key | .drop => .drop | .occ_key => .occ_key | .occ_get => .occ_get
+  | .occ_get_mut _ => .occ_get_mut id | .occ_insert _ => .occ_insert () | .occ_remove => .occ_remove
+  | .occ_remove_entry => .occ_remove_entry | .occ_into_mut => .occ_into_mut
+  | .vac_key => .vac_key | .vac_into_key => .vac_into_key | .vac_insert _ => .vac_insert ()
+
+def mapOpToUnit : MapOp DKey DVal DKey → MapOp DKey Unit DKey
+  | .insert k _ => .insert k () | .insert_key_value k _ => .insert_key_value k ()
+  | .checked_insert k _ => .checked_insert k () | .insert_unchecked k _ => .insert_unchecked k ()
+  | .get p => .get p | .get_key_value p => .get_key_value p | .get_mut p _ => .get_mut p id
+  | .contains_key p => .contains_key p | .index p => .index p | .index_mut p _ => .index_mut p id
+  | .remove p => .remove p | .remove_entry p => .remove_entry p
+  | .retain f => .retain fun n k u => ((f n k ⟨0, 0⟩).1, u)
+  | .clear => .clear | .len => .len | .is_empty => .is_empty | .capacity => .capacity
+  | .drain t f => .drain t f | .into_iter k t f => .into_iter k t f
+  | .iter kind _ script => .iter kind id script
+  | .clone_to d => .clone_to d | .eq o => .eq o
+  | .from_iter p xs => .from_iter p (xs.map fun x => (x.1, ()))
+  | .entry k mods fin => .entry k (mods.map fun _ => id) (endToUnit fin)
+  | .get_disjoint_mut u _ ks => .get_disjoint_mut u id ks
+  | .fmt k => .fmt k | .drop => .drop | .forget => .forget | .with_capacity c => .with_capacity c
+  | .serde d => .serde d
+
 def parseOp? (toks : List String) : Option (Op DKey DVal DKey) :=
   match toks with
   | ["end"] => some .endCase
   | ["inject", j] => (parseNat? j).map .inject
+  | "u0" :: args => do pure (.umap 0 (mapOpToUnit (← parseMapOp? args)))
+  | "u1" :: args => do pure (.umap 1 (mapOpToUnit (← parseMapOp? args)))
   | reg :: args => do
     let (isMap, i) ← parseReg? reg
     if isMap then pure (.map i (← parseMapOp? args)) else pure (.set i (← parseSetOp? args))
